@@ -87,8 +87,34 @@ pub struct MarketInfo {
     pub short: usize,
 }
 
+/// A successful transaction with the state it ran on (for authority-mutation replay, C19).
+pub struct Traced {
+    pub pre: Svm,
+    pub ixs: Vec<Instruction>,
+    pub signers: Vec<Pubkey>,
+}
+
+/// Bounded trace of successful transactions, keyed by the instruction discriminators they contain.
+#[derive(Default)]
+pub struct Trace {
+    pub max_per_instruction: usize,
+    pub counts: std::collections::BTreeMap<(Pubkey, [u8; 8]), usize>,
+    pub items: Vec<Traced>,
+}
+
+/// Cloning a world never clones its trace.
+#[derive(Default)]
+pub struct TraceCell(pub Option<Box<Trace>>);
+
+impl Clone for TraceCell {
+    fn clone(&self) -> Self {
+        TraceCell(None)
+    }
+}
+
 #[derive(Clone)]
 pub struct World {
+    pub trace: TraceCell,
     pub svm: Svm,
     pub admin: Pubkey,
     /// Holds every role except RESTART_ADMIN / MARKET_CONFIG_KEEPER.
@@ -110,12 +136,46 @@ pub const UNIT: u128 = 100_000_000_000_000_000_000;
 
 impl World {
     pub fn send(&mut self, ixs: &[Instruction], signers: &[Pubkey]) -> TxResult {
-        self.svm.process(ixs, signers)
+        let want = match &self.trace.0 {
+            Some(t) => ixs.iter().any(|ix| {
+                ix.data.len() >= 8 && {
+                    let mut d = [0u8; 8];
+                    d.copy_from_slice(&ix.data[..8]);
+                    t.counts.get(&(ix.program_id, d)).copied().unwrap_or(0) < t.max_per_instruction
+                }
+            }),
+            None => false,
+        };
+        let pre = want.then(|| self.svm.clone());
+        let r = self.svm.process(ixs, signers);
+        if let (Ok(_), Some(pre), Some(t)) = (&r, pre, self.trace.0.as_mut()) {
+            for ix in ixs {
+                if ix.data.len() >= 8 {
+                    let mut d = [0u8; 8];
+                    d.copy_from_slice(&ix.data[..8]);
+                    *t.counts.entry((ix.program_id, d)).or_default() += 1;
+                }
+            }
+            t.items.push(Traced { pre, ixs: ixs.to_vec(), signers: signers.to_vec() });
+        }
+        r
+    }
+
+    /// Start recording successful transactions (at most `max_per_instruction` per instruction kind).
+    pub fn enable_trace(&mut self, max_per_instruction: usize) {
+        self.trace = TraceCell(Some(Box::new(Trace { max_per_instruction, ..Default::default() })));
+    }
+
+    pub fn take_trace(&mut self) -> Vec<Traced> {
+        match self.trace.0.as_mut() {
+            Some(t) => std::mem::take(&mut t.items),
+            None => vec![],
+        }
     }
 
     /// Send and panic (harness error) on failure: used only for bootstrap steps that must succeed.
     pub fn must(&mut self, what: &str, ixs: &[Instruction], signers: &[Pubkey]) -> TxMeta {
-        match self.svm.process(ixs, signers) {
+        match self.send(ixs, signers) {
             Ok(m) => m,
             Err((e, m)) => panic!("bootstrap step `{what}` failed: {e:?} (ix {:?}) logs={:?}", m.failed_ix, m.logs),
         }
@@ -147,6 +207,11 @@ impl World {
 
     /// Create the store, enable all roles, grant the keeper roles.
     pub fn bootstrap_store() -> World {
+        Self::bootstrap_store_with_trace(0)
+    }
+
+    /// Same, recording the bootstrap transactions when `trace_max > 0`.
+    pub fn bootstrap_store_with_trace(trace_max: usize) -> World {
         let mut svm = new_svm();
         let admin = key("admin");
         let keeper = key("keeper");
@@ -154,6 +219,7 @@ impl World {
         svm.airdrop(&keeper, 1_000_000 * LAMPORTS);
         let store = pda::find_store_address("", &STORE_PID).0;
         let mut w = World {
+            trace: TraceCell(None),
             svm,
             admin,
             keeper,
@@ -175,6 +241,9 @@ impl World {
             .0,
             nonce: 0,
         };
+        if trace_max > 0 {
+            w.enable_trace(trace_max);
+        }
         w.must(
             "initialize",
             &[six(
